@@ -37,11 +37,11 @@ theorem set_mid (pre : List Bool) (x y : Bool) (suf : List Bool) :
 theorem partlevel_fold (table : List Nat) (shift : Nat) (hs : shift < 8) :
     ∀ (vals : List Nat) (pre suf : List Bool) (no nz : List Nat), (∀ v ∈ vals, v < table.length) →
     vals.length ≤ suf.length → pre.length + vals.length < 2 ^ 64 →
-    vals.foldlM (Gen.SrcWavelet.buildPartlevel_for1 rank0 rank1 bvSetBit table shift) (pre ++ suf, pre.length, no, nz)
-      = Res.ok (pre ++ vals.map (bitOf (fun v => table.getD v 0) shift) ++ suf.drop vals.length,
-          pre.length + vals.length,
+    vals.foldlM (Gen.SrcWavelet.buildPartlevel_for1 rank0 rank1 bvSetBit table shift) (nz, no, pre ++ suf, pre.length)
+      = Res.ok (nz ++ vals.filter (fun v => !bitOf (fun v => table.getD v 0) shift v),
           no ++ vals.filter (fun v => bitOf (fun v => table.getD v 0) shift v),
-          nz ++ vals.filter (fun v => !bitOf (fun v => table.getD v 0) shift v)) := by
+          pre ++ vals.map (bitOf (fun v => table.getD v 0) shift) ++ suf.drop vals.length,
+          pre.length + vals.length) := by
   intro vals
   induction vals with
   | nil => intro pre suf no nz _ _ _; simp
@@ -73,13 +73,13 @@ theorem partlevel_fold (table : List Nat) (shift : Nat) (hs : shift < 8) :
     | true =>
       rw [hb] at hih
       simp only [Gen.SrcWavelet.buildPartlevel_for1, e1, e2, hbit, hbit', hb, e3, e4, e4', Res.ok_bind, Res.pure_eq_ok,
-        if_true, ite_true]
+        if_true, ite_true, if_false, ite_false, Bool.false_eq_true, Bool.not_true, Bool.not_false, bne_iff_ne, ne_eq]
       rw [hih (no ++ [v]) nz (fun w hw => hv w (List.mem_cons_of_mem _ hw)) (by omega) (by omega)]
       simp [hb, Nat.add_assoc, Nat.add_comm 1, -List.getD_eq_getElem?_getD]
     | false =>
       rw [hb] at hih
       simp only [Gen.SrcWavelet.buildPartlevel_for1, e1, e2, hbit, hbit', hb, e3, e4, e4', Res.ok_bind, Res.pure_eq_ok,
-        if_false, ite_false, Bool.false_eq_true]
+        if_true, ite_true, if_false, ite_false, Bool.false_eq_true, Bool.not_true, Bool.not_false, bne_iff_ne, ne_eq]
       rw [hih no (nz ++ [v]) (fun w hw => hv w (List.mem_cons_of_mem _ hw)) (by omega) (by omega)]
       simp [hb, Nat.add_assoc, Nat.add_comm 1, -List.getD_eq_getElem?_getD]
 
@@ -111,11 +111,11 @@ theorem level_step (table : List Nat) (W H : Nat) (hH : H ≤ 8) (hW : W < 2 ^ 6
     (hrs : ∀ bits : List Bool, bits.length = W → rsNew bits 1 = Res.ok (mk bits))
     (m level : Nat) (hlv : level + (m + 1) = H) (cz co : List Nat) (lvls : List ρ) (zs : List Nat)
     (hlen : cz.length + co.length = W) (hv : ∀ v ∈ cz ++ co, v < table.length) :
-    Gen.SrcWavelet.new_for1 rank0 rank1 bvSetBit bvNewFill rsNew W H table (cz, co, lvls, zs) level
+    Gen.SrcWavelet.new_for1 rank0 rank1 bvSetBit bvNewFill rsNew W H table (cz, co, zs, lvls) level
       = Res.ok ((cz ++ co).filter (fun v => !bitOf (fun v => table.getD v 0) m v),
           (cz ++ co).filter (fun v => bitOf (fun v => table.getD v 0) m v),
-          lvls ++ [mk ((cz ++ co).map (bitOf (fun v => table.getD v 0) m))],
-          zs ++ [((cz ++ co).filter (fun v => !bitOf (fun v => table.getD v 0) m v)).length]) := by
+          zs ++ [((cz ++ co).filter (fun v => !bitOf (fun v => table.getD v 0) m v)).length],
+          lvls ++ [mk ((cz ++ co).map (bitOf (fun v => table.getD v 0) m))]) := by
   have e1 : Rs.sub H level = Res.ok (H - level) := Rs.sub_ok (by omega)
   have e2 : Rs.sub (H - level) 1 = Res.ok (H - level - 1) := Rs.sub_ok (by omega)
   have hsh : Rs.cast 8 (H - level - 1) = m := by
@@ -149,9 +149,9 @@ theorem levels_fold (table : List Nat) (W H : Nat) (hH : H ≤ 8) (hW : W < 2 ^ 
     ∀ (m level : Nat) (cz co : List Nat) (lvls : List ρ) (zs : List Nat), level + m = H → cz.length + co.length = W →
     (∀ v ∈ cz ++ co, v < table.length) →
     ∃ cz' co', (List.range' level m).foldlM
-        (Gen.SrcWavelet.new_for1 rank0 rank1 bvSetBit bvNewFill rsNew W H table) (cz, co, lvls, zs)
-      = Res.ok (cz', co', lvls ++ (buildLevels (fun v => table.getD v 0) m (cz ++ co)).map (fun lv => mk lv.bits),
-          zs ++ (buildLevels (fun v => table.getD v 0) m (cz ++ co)).map (·.zeros)) := by
+        (Gen.SrcWavelet.new_for1 rank0 rank1 bvSetBit bvNewFill rsNew W H table) (cz, co, zs, lvls)
+      = Res.ok (cz', co', zs ++ (buildLevels (fun v => table.getD v 0) m (cz ++ co)).map (·.zeros),
+          lvls ++ (buildLevels (fun v => table.getD v 0) m (cz ++ co)).map (fun lv => mk lv.bits)) := by
   intro m
   induction m with
   | zero =>
